@@ -13,6 +13,7 @@ import (
 
 	"verif/harness/cs"
 	"verif/harness/gen"
+	"verif/harness/model"
 	"verif/harness/run"
 	"verif/harness/sm"
 )
@@ -175,15 +176,36 @@ func concurrentReaders(backend string, docs []cs.Doc, readers int) *sm.Fail {
 	}
 	fails := make([]*sm.Fail, readers)
 	var wg sync.WaitGroup
+	// a writer churns other documents of the same collection meanwhile (the fixed documents
+	// are never touched): pages get rewritten and freed under the readers
+	stop := make(chan struct{})
+	var wwg sync.WaitGroup
+	wwg.Add(1)
+	go func() {
+		defer wwg.Done()
+		for i := 0; ; i++ {
+			select {
+			case <-stop:
+				return
+			default:
+			}
+			id := gen.Id(500 + i%40)
+			run.Exec(s.H.DB, &cs.Op{Kind: "insert", Coll: "A", Docs: []cs.Doc{{"_id": id, "churn": strings.Repeat("z", 300+97*(i%7))}}})
+			if i%3 == 2 {
+				run.Exec(s.H.DB, &cs.Op{Kind: "deletebyid", Coll: "A", Id: &cs.IdRef{Lit: gen.Id(500 + (i-2)%40)}})
+			}
+		}
+	}()
 	for g := 0; g < readers; g++ {
 		wg.Add(1)
 		go func(g int) {
 			defer wg.Done()
-			for round := 0; round < 6 && fails[g] == nil; round++ {
+			for round := 0; round < 12 && fails[g] == nil; round++ {
 				var out *cs.Outcome
 				var op cs.Op
 				if (g+round)%2 == 0 {
-					op = cs.Op{Kind: "find", Q: &cs.Query{Coll: "A"}}
+					// the fixed documents are the ones without a "churn" field
+					op = cs.Op{Kind: "find", Q: &cs.Query{Coll: "A", Crit: &cs.Crit{Op: "notexists", Field: "churn"}}}
 				} else {
 					op = cs.Op{Kind: "findbyid", Coll: "A", Id: &cs.IdRef{Lit: docs[(g+round)%len(docs)]["_id"].(string)}}
 				}
@@ -200,6 +222,8 @@ func concurrentReaders(backend string, docs []cs.Doc, readers int) *sm.Fail {
 		}(g)
 	}
 	wg.Wait()
+	close(stop)
+	wwg.Wait()
 	for _, f := range fails {
 		if f != nil {
 			return f
@@ -297,6 +321,21 @@ func testC11RoundTrip(t *testing.T) {
 		do(cs.Op{Kind: "updatebyid", Coll: "A", Id: &cs.IdRef{Lit: gen.Id(0)}, Upd: &cs.Updater{Kind: "set", Field: "n.deep", Value: cs.V{X: uv}}})
 		uv2 := value("updval2")
 		do(cs.Op{Kind: "update", Q: &cs.Query{Coll: "A"}, UpdMap: map[string]cs.V{"s": {X: uv2}}})
+		// rewrite a field with a value that compares equal but is not identical (5 as float64 instead
+		// of int64, the same instant in another zone, ...): the new representation must be stored
+		if cur := s.M.Colls["A"].Docs[gen.Id(1)]; cur != nil {
+			for _, k := range cs.SortedKeys(cur) {
+				if k == "_id" {
+					continue
+				}
+				nv := gen.Near(gen.ValCfg{NonUTF8: true}, cur[k]).Draw(rt, "retype")
+				if !model.IsFinite(nv) {
+					continue
+				}
+				do(cs.Op{Kind: "update", Q: &cs.Query{Coll: "A", Crit: &cs.Crit{Op: "eq", Field: "_id", Arg: &cs.Operand{Kind: "lit", Lit: cs.V{X: gen.Id(1)}}}}, UpdMap: map[string]cs.V{k: {X: nv}}})
+				break
+			}
+		}
 		for _, d := range []cs.Doc{d0, d1, d2b, d3, {"_id": gen.Id(9), "v": uv}, {"_id": gen.Id(9), "v": uv2}} {
 			record(d)
 		}
